@@ -11,14 +11,57 @@ CANCEL = "graph::CancellationToken::cancel"
 RUN_TRAIT = "graph::GraphRunner"
 
 
+_rb_cache = {}
+
+
+def _has_work_call(b):
+    return any(t["f"].get("kind") == "traitdecl" for _, t in b.calls_to(WORK))
+
+
 def runner_bodies(facts):
-    """Bodies that implement GraphRunner::run, plus the closures nested in them."""
+    """Bodies that implement GraphRunner::run, the closures nested in them, and local helper functions
+    (reachable through the call graph) that contain a `dyn Block::work()` call."""
+    k = id(facts)
+    if k in _rb_cache:
+        return _rb_cache[k]
     out = []
     for b in facts.bodies:
         if b.kind == "traitimpl" and b.trait == RUN_TRAIT and b.name == "run":
             out.append(b)
             out.extend(facts.closures_in(b))
+    cg = CallGraph(facts)
+    reach = cg.reachable_bodies([b.q for b in out])
+    have = {b.path for b in out}
+    for b in facts.bodies:
+        if b.q in reach and b.path not in have and _has_work_call(b):
+            out.append(b)
+            have.add(b.path)
+            for c in facts.closures_in(b):
+                if c.path not in have:
+                    out.append(c)
+                    have.add(c.path)
+    _rb_cache[k] = out
     return out
+
+
+SPAWN_QS = {"std::thread::Builder::spawn", "std::thread::spawn", "std::thread::Builder::spawn_scoped", "std::thread::Scope::spawn"}
+
+
+def thread_side_paths(facts):
+    """Paths of bodies that run on a spawned thread: closures passed to a spawn call and everything they call."""
+    cg = CallGraph(facts)
+    roots = []
+    for b in facts.bodies:
+        for bb, t in b.calls_to(SPAWN_QS):
+            for a in t["args"]:
+                e = b.operand_expr(a)
+                for x in walk(e):
+                    if x.k == "agg" and x.ak == "closure" and x.q:
+                        cb = facts.by_path.get(x.q)
+                        if cb is not None:
+                            roots.append(cb.q)
+    reach = cg.reachable_bodies(roots)
+    return {b.path for b in facts.bodies if b.q in reach}
 
 
 class WorkSite:
